@@ -744,6 +744,25 @@ func report(o *Options, w *World, results []*FuncResult, jobs []*job, start time
 				if v, ok := ex["violations"].(float64); ok && v > 0 {
 					violations += int(v)
 				}
+				if level == "exploration" {
+					// the deciding part of this property is the bounded stand-in: its exploration figures are the
+					// coverage, the discharged obligations are listed beside them
+					for _, k := range []string{"evaluations", "distinct_nontrivial", "rule", "exhaustive", "bound"} {
+						if v, ok := ex[k]; ok {
+							cov[k] = v
+						}
+					}
+					if f, ok := cov["evaluations"].(float64); ok {
+						cov["evaluations"] = int(f)
+					}
+					if f, ok := cov["distinct_nontrivial"].(float64); ok {
+						cov["distinct_nontrivial"] = int(f)
+					}
+					if bs, ok := ex["samples"].([]interface{}); ok && len(bs) > 0 {
+						cov["obligation_samples"] = cov["samples"]
+						cov["samples"] = bs
+					}
+				}
 			}
 		}
 	}
